@@ -5,11 +5,12 @@ namespace Flatcc.Verifier
 theorem comm_add (a b : Nat) : a + b = b + a := Nat.add_comm a b
 
 /-- an offset field handled by `check_field`: either absent (only vtable reads) or a verified slot -/
-theorem kind_sound {c : Ctx} {M : Nat} (P : Placed c M) (S : Schema) (w : WF S M) (fuel : Nat) (IH : TableSound S c fuel)
+theorem kind_sound {c : Ctx} {M : Nat} (P : Placed c M) (S : Schema) (w : WF S M) (fuel : Nat) (IHall : TableSoundAll S M fuel)
     (td : TD) (inv : TDInv c td) (f : Field) (hf : FieldWF M f)
     (h : verifyKind S c fuel td f = .ok ()) :
     ∀ fuel' a, a ∈ fieldAcc S c fuel' td.table f → Safe c a := by
   intro fuel' a ha
+  have IH : TableSound S c fuel := IHall c P
   have hsz := P.size
   have hid := hf.1
   have hvt := readVt_spec P td f.id hid inv
@@ -267,8 +268,86 @@ theorem kind_sound {c : Ctx} {M : Nat} (P : Placed c M) (S : Schema) (w : WF S M
           have hr1 := hvvT.2.1
           have hr2 := hvv.2.1
           exact verifyUnions_safe P S w fuel IH _ u n _ _ (by omega) (by omega) (by omega) h fuel' a ha
+  | nestedTable t align =>
+    simp only [hk] at h ha
+    have hal : align ∣ M := by have := hf.2; simp only [hk] at this; exact this
+    obtain ⟨r, hr, h⟩ := bind_ok h
+    rcases getOffsetField_spec P td f.id f.required hid inv hr with ⟨hz, _⟩ | ⟨hz, rfl, hsafe, hin, hal4⟩
+    · simp only [hz, if_true] at ha; exact hvt.1 a ha
+    · simp only [] at h
+      obtain ⟨o, ho, h⟩ := bind_ok h
+      obtain ⟨len, hv, h⟩ := bind_ok h
+      rw [comm_add (readVt c td.table f.id).1 td.table] at ho hv h
+      obtain ⟨_, ho2⟩ := rd32_ok ho
+      have holt := r32_lt c (td.table + (readVt c td.table f.id).1)
+      have hvv := verifyVector_ok P (by omega) (by omega) hal (by decide) hv
+      have hrange := hvv.2.1
+      have e1 : w32 (td.table + (readVt c td.table f.id).1 + o) = td.table + (readVt c td.table f.id).1 + o := by
+        unfold w32; omega
+      have e2 : w32 (td.table + (readVt c td.table f.id).1 + o + 4) = td.table + (readVt c td.table f.id).1 + o + 4 := by
+        unfold w32; omega
+      rw [e1, e2] at h
+      unfold verifyNestedTable at h
+      obtain ⟨_, hh, h⟩ := bind_ok h
+      obtain ⟨ro, hro, h⟩ := bind_ok h
+      obtain ⟨P', hn8⟩ := verifyHeader_placed (c := sub c (td.table + (readVt c td.table f.id).1 + o + 4) len) P.m4 P.mpow hh
+      obtain ⟨_, hro2⟩ := rd32_ok hro
+      have hn8' : 8 ≤ len := hn8
+      simp only [hz, if_false, List.mem_append, List.mem_cons, List.mem_map] at ha
+      rcases ha with ha | rfl | ha | ⟨a', ha', rfl⟩
+      · exact hvt.1 a ha
+      · exact hsafe
+      · rw [← ho2] at ha; exact vectorAcc_bytes_safe P hvv.1 hrange hvv.2.2.1 a ha
+      · rw [← ho2, ← hvv.1] at ha'
+        rw [← ho2]
+        apply safe_shift (len := len) (by omega)
+        rcases ha' with rfl | ha'
+        · exact safe4 P' (by show 0 + 4 ≤ len; omega) (by decide)
+        · rw [← hro2] at ha'
+          have := IHall _ P' 0 ro td.ttl t (by omega) (by rw [hro2]; exact r32_lt _ _) h fuel' a'
+          rw [Nat.zero_add] at this
+          exact this ha'
+  | nestedStruct size align =>
+    simp only [hk] at h ha
+    have hw2 : align ∣ M ∧ size < 4294967296 := by have := hf.2; simp only [hk] at this; exact this
+    obtain ⟨r, hr, h⟩ := bind_ok h
+    rcases getOffsetField_spec P td f.id f.required hid inv hr with ⟨hz, _⟩ | ⟨hz, rfl, hsafe, hin, hal4⟩
+    · simp only [hz, if_true] at ha; exact hvt.1 a ha
+    · simp only [] at h
+      obtain ⟨o, ho, h⟩ := bind_ok h
+      obtain ⟨len, hv, h⟩ := bind_ok h
+      rw [comm_add (readVt c td.table f.id).1 td.table] at ho hv h
+      obtain ⟨_, ho2⟩ := rd32_ok ho
+      have holt := r32_lt c (td.table + (readVt c td.table f.id).1)
+      have hvv := verifyVector_ok P (by omega) (by omega) hw2.1 (by decide) hv
+      have hrange := hvv.2.1
+      have e1 : w32 (td.table + (readVt c td.table f.id).1 + o) = td.table + (readVt c td.table f.id).1 + o := by
+        unfold w32; omega
+      have e2 : w32 (td.table + (readVt c td.table f.id).1 + o + 4) = td.table + (readVt c td.table f.id).1 + o + 4 := by
+        unfold w32; omega
+      rw [e1, e2] at h
+      obtain ⟨_, hh, h⟩ := bind_ok h
+      obtain ⟨ro, hro, h⟩ := bind_ok h
+      obtain ⟨P', hn8⟩ := verifyHeader_placed (c := sub c (td.table + (readVt c td.table f.id).1 + o + 4) len) P.m4 P.mpow hh
+      obtain ⟨_, hro2⟩ := rd32_ok hro
+      have hs := verifyStruct_safe P' (Nat.le_refl _) (by rw [hro2]; exact r32_lt _ _) hw2.2 hw2.1 h
+      rw [Nat.zero_add, hro2, r32_sub, Nat.add_zero] at hs
+      have hn8' : 8 ≤ len := hn8
+      simp only [hz, if_false, List.mem_append, List.mem_cons, List.mem_nil_iff, or_false] at ha
+      rcases ha with ha | rfl | ha | rfl | rfl
+      · exact hvt.1 a ha
+      · exact hsafe
+      · rw [← ho2] at ha; exact vectorAcc_bytes_safe P hvv.1 hrange hvv.2.2.1 a ha
+      · rw [← ho2]
+        have := safe_shift (len := len) (by omega) (safe4 P' (by show 0 + 4 ≤ len; omega) (by decide))
+        unfold shiftAcc at this
+        simpa using this
+      · rw [← ho2]
+        have := safe_shift (len := len) (by omega) hs
+        unfold shiftAcc at this
+        simpa using this
 
-theorem fields_sound {c : Ctx} {M : Nat} (P : Placed c M) (S : Schema) (w : WF S M) (fuel : Nat) (IH : TableSound S c fuel)
+theorem fields_sound {c : Ctx} {M : Nat} (P : Placed c M) (S : Schema) (w : WF S M) (fuel : Nat) (IHall : TableSoundAll S M fuel)
     (td : TD) (inv : TDInv c td) :
     ∀ fs, (∀ f ∈ fs, FieldWF M f) → verifyFields S c fuel td fs = .ok () →
       ∀ fuel' a, a ∈ fieldsAcc S c fuel' td.table fs → Safe c a := by
@@ -282,16 +361,16 @@ theorem fields_sound {c : Ctx} {M : Nat} (P : Placed c M) (S : Schema) (w : WF S
     unfold fieldsAcc at ha
     simp only [List.mem_append] at ha
     rcases ha with ha | ha
-    · exact kind_sound P S w fuel IH td inv f (hfs f List.mem_cons_self) h1 fuel' a ha
+    · exact kind_sound P S w fuel IHall td inv f (hfs f List.mem_cons_self) h1 fuel' a ha
     · exact ih (fun g hg => hfs g (List.mem_cons_of_mem _ hg)) h2 fuel' a ha
 
 /-- every table the verifier model accepts is safe to read through every accessor, to any depth -/
-theorem table_sound {c : Ctx} {M : Nat} (P : Placed c M) (S : Schema) (w : WF S M) : ∀ fuel, TableSound S c fuel := by
+theorem table_sound_all (M : Nat) (S : Schema) (w : WF S M) : ∀ fuel, TableSoundAll S M fuel := by
   intro fuel
   induction fuel with
-  | zero => intro base offset ttl t _ _ h; unfold verifyTable at h; contradiction
+  | zero => intro c _ base offset ttl t _ _ h; unfold verifyTable at h; contradiction
   | succ fuel ih =>
-    intro base offset ttl t hb ho h fuel' a ha
+    intro c P base offset ttl t hb ho h fuel' a ha
     obtain ⟨td, inv, htab, _, hf⟩ := verifyTable_header P S fuel base offset ttl t hb ho h
     cases fuel' with
     | zero => unfold tableAcc at ha; contradiction
@@ -299,5 +378,9 @@ theorem table_sound {c : Ctx} {M : Nat} (P : Placed c M) (S : Schema) (w : WF S 
       unfold tableAcc at ha
       rw [← htab] at ha
       exact fields_sound P S w fuel ih td inv _ (w.table t) hf fuel' a ha
+
+/-- every table the verifier model accepts is safe to read through every accessor, to any depth -/
+theorem table_sound {c : Ctx} {M : Nat} (P : Placed c M) (S : Schema) (w : WF S M) : ∀ fuel, TableSound S c fuel :=
+  fun fuel => table_sound_all M S w fuel c P
 
 end Flatcc.Verifier
